@@ -1046,6 +1046,11 @@ func DecodeCashAddress(str string) (string, []byte, error) {
 		values[i] = byte(CharsetRev[c])
 	}
 
+	// The data part must at least hold the eight checksum symbols.
+	if len(values) < 8 {
+		return "", nil, errors.New("address is too short to hold a checksum")
+	}
+
 	// Verify the checksum.
 	if !verifyChecksum(prefix, values) {
 		return "", nil, ErrChecksumMismatch
